@@ -14,7 +14,10 @@ use crate::{
 };
 
 pub fn parse_meta(token_stream: TokenStream) -> Result<Meta, syn::Error> {
+    #[cfg(not(nutype_verif))]
     let input: DeriveInput = syn::parse(token_stream.into())?;
+    #[cfg(nutype_verif)]
+    let input: DeriveInput = syn::parse2(token_stream)?;
 
     let input_span = input.span();
     let DeriveInput {
@@ -120,4 +123,10 @@ fn validate_inner_field_visibility(vis: &Visibility) -> Result<(), syn::Error> {
             Err(syn::Error::new(vis.span(), msg))
         }
     }
+}
+
+/// Verification hooks (inert unless built with `--cfg nutype_verif`, which only /verif's mirror crate sets).
+#[cfg(nutype_verif)]
+pub(crate) fn verif_validate_inner_field_visibility(vis: &Visibility) -> Result<(), syn::Error> {
+    validate_inner_field_visibility(vis)
 }
